@@ -1236,6 +1236,9 @@ pub struct DocCase {
     /// every later one must not be reported as succeeded | "codes:a,b,..": the document runs to
     /// the end and records these exit codes
     pub expect: String,
+    /// variables scrut itself was started with (they reach every shell it starts): POSIXLY_CORRECT ...
+    #[serde(default)]
+    pub env: BTreeMap<String, String>,
 }
 
 fn check_doc_case(c: &DocCase) -> Result<Option<String>, String> {
@@ -1245,6 +1248,9 @@ fn check_doc_case(c: &DocCase) -> Result<Option<String>, String> {
     for (i, (e, exps, code)) in c.tests.iter().enumerate() {
         let mut config = if c.script_mode { TestCaseConfig::default_cram() } else { TestCaseConfig::default_markdown() };
         config.environment.insert("HOME".into(), "/nonexistent-home".into());
+        for (k, v) in &c.env {
+            config.environment.insert(k.clone(), v.clone());
+        }
         if let Some(k) = c.skip_code {
             config.skip_document_code = Some(k);
         }
@@ -1292,6 +1298,7 @@ fn check_doc_case(c: &DocCase) -> Result<Option<String>, String> {
             let mut child = Command::new("/bin/bash")
                 .current_dir(&l.work)
                 .env("HOME", "/nonexistent-home")
+                .envs(&c.env)
                 .stdin(Stdio::piped())
                 .stdout(Stdio::null())
                 .stderr(Stdio::null())
@@ -1341,6 +1348,14 @@ fn doc_cases(prop: &str) -> Vec<DocCase> {
     let t = |e: &str, exps: &[&str], code: Option<i32>| (e.to_string(), exps.iter().map(|x| x.to_string()).collect::<Vec<_>>(), code);
     match prop {
         "C05" => {
+            // scrut itself started in an environment that changes how every bash behaves: each
+            // expression still runs and is judged by ITS exit code
+            for (k, v) in [("POSIXLY_CORRECT", "1"), ("SHELLOPTS", "posix"), ("BASH_ENV", "/nonexistent/bashrc"), ("BASH_COMPAT", "4.4")] {
+                let tests = vec![t("echo one", &["one"], None), t("(exit 1)", &[], Some(1)), t("echo three; (exit 3)", &["three"], Some(3)), t("echo four", &["four"], None)];
+                let env: BTreeMap<String, String> = [(k.to_string(), v.to_string())].into_iter().collect();
+                out.push(DocCase { real_doc: true, property: "C05".into(), script_mode: false, skip_code: None, tests: tests.clone(), expect: "codes:0,1,3,0".into(), env: env.clone() });
+                out.push(DocCase { real_doc: true, property: "C05".into(), script_mode: true, skip_code: None, tests, expect: "codes:0,1,3,0".into(), env });
+            }
             // a command ended by a signal has no exit code: it never passes, nor does what follows
             for sig in ["TERM", "HUP", "INT", "QUIT", "KILL", "SEGV", "ABRT", "USR1", "USR2", "PIPE", "ALRM", "BUS", "FPE"] {
                 for script_mode in [false, true] {
@@ -1359,7 +1374,7 @@ fn doc_cases(prop: &str) -> Vec<DocCase> {
                         tests.push(killed);
                         tests.push(t("true", &[], None));
                         tests.push(t("echo last", &["last"], None));
-                        out.push(DocCase { real_doc: true, property: "C05".into(), script_mode, skip_code: None, tests, expect: format!("not-success:{}", pos) });
+                        out.push(DocCase { real_doc: true, property: "C05".into(), script_mode, skip_code: None, tests, expect: format!("not-success:{}", pos), env: BTreeMap::new() });
                     }
                 }
             }
@@ -1373,10 +1388,23 @@ fn doc_cases(prop: &str) -> Vec<DocCase> {
                 ("set -eu; mkdir \"$PWD/gone3\"; cd \"$PWD/gone3\"", "cd ..; rmdir gone3; unset OLDPWD"),
             ] {
                 let tests = vec![t(a, &[], None), t(b, &[], None), t("echo in3", &["in3"], None), t("echo in4", &["in4"], None)];
-                out.push(DocCase { real_doc: true, property: "C12".into(), script_mode: false, skip_code: None, tests, expect: "codes:0,0,0,0".into() });
+                out.push(DocCase { real_doc: true, property: "C12".into(), script_mode: false, skip_code: None, tests, expect: "codes:0,0,0,0".into(), env: BTreeMap::new() });
             }
         }
         "C15" => {
+            // scrut itself started in an environment that changes how every bash behaves
+            for (k, v) in [("POSIXLY_CORRECT", "1"), ("SHELLOPTS", "posix"), ("BASH_ENV", "/nonexistent/bashrc"), ("ENV", "/nonexistent/shrc"), ("BASH_COMPAT", "4.4")] {
+                for pos in [0usize, 1, 2] {
+                    let mut tests = vec![];
+                    for i in 0..pos {
+                        tests.push(t(&format!("echo before{}", i), &[&format!("before{}", i)], None));
+                    }
+                    tests.push(t("exit 80", &[], None));
+                    tests.push(t("echo after", &["after"], None));
+                    let env: BTreeMap<String, String> = [(k.to_string(), v.to_string())].into_iter().collect();
+                    out.push(DocCase { real_doc: true, property: "C15".into(), script_mode: false, skip_code: None, tests, expect: "skipped".into(), env });
+                }
+            }
             // whatever shell options are in force, the skip code skips - and only the skip code does
             let preludes = [
                 "", "set -e", "set -u", "set -eu", "set -euo pipefail", "set -eu; unset OLDPWD", "cd /; unset OLDPWD; set -eu", "unset OLDPWD PWD; set -u",
@@ -1395,12 +1423,12 @@ fn doc_cases(prop: &str) -> Vec<DocCase> {
                             }
                             tests.push(t(&exit_form, &[], None));
                             tests.push(t("echo after", &["after"], None));
-                            out.push(DocCase { real_doc: true, property: "C15".into(), script_mode, skip_code: custom, tests, expect: "skipped".into() });
+                            out.push(DocCase { real_doc: true, property: "C15".into(), script_mode, skip_code: custom, tests, expect: "skipped".into(), env: BTreeMap::new() });
                         }
                         // the other half: the default code does not skip when a custom one is set
                         if custom.is_some() && !script_mode && !p.contains("set -e") && !p.contains("errexit") {
                             let tests = vec![t(&format!("{}{}(exit 80)", p, sep), &[], Some(80)), t("true", &[], None)];
-                            out.push(DocCase { real_doc: true, property: "C15".into(), script_mode, skip_code: custom, tests, expect: "codes:80,0".into() });
+                            out.push(DocCase { real_doc: true, property: "C15".into(), script_mode, skip_code: custom, tests, expect: "codes:80,0".into(), env: BTreeMap::new() });
                         }
                     }
                 }
